@@ -314,7 +314,7 @@ func main() {
 	samples := []string{}
 	for i := 0; i < n; i++ {
 		r := &rng{s: seed*1000003 + uint64(i)}
-		sp := genSpec(r, genOpts{MaxDepth: 1 + i%3, Special: i%4 == 2})
+		sp := genSpec(r, genOpts{MaxDepth: 1 + i%3, Special: i%4 == 2, Clones: i%3 != 0, CaseTwin: i%5 == 1})
 		if i%8 == 5 { // guaranteed deep nesting: 3..5 multiplexer levels around an enum with values
 			addDeepChain(sp, r, 3+(i/8)%3)
 		}
@@ -329,9 +329,44 @@ func main() {
 				fmt.Println("build errors:", b.Errs)
 			}
 		}
-		dump := dumpNetwork(b.Net)
-		text, xerr, pan := exportMD(b.Net)
+		for _, bs := range sp.Buses {
+			if bs.NilBuilder && bs.Builder < 0 {
+				kinds["bus-rendered-right-after-SetCANIDBuilder(nil)"]++
+			}
+		}
+		for _, t := range sp.Types {
+			if t.CloneOf >= 0 {
+				kinds["renamed-clone-type"]++
+			}
+		}
+		for _, t := range sp.Units {
+			if t.CloneOf >= 0 {
+				kinds["renamed-clone-unit"]++
+			}
+		}
+		for _, t := range sp.Enums {
+			if t.CloneOf >= 0 {
+				kinds["renamed-clone-enum"]++
+			}
+		}
+		// render FIRST, before any getter of the harness touches the network: String() of the
+		// network and of every bus, then the Markdown export; only then the dump through getters
 		var cf []propFail
+		for _, f := range []struct {
+			kind string
+			f    func() string
+		}{{"network", b.Net.String}} {
+			func() {
+				defer func() {
+					if r := recover(); r != nil {
+						cf = append(cf, propFail{"string-panic-" + f.kind + "-first-read", fmt.Sprintf("%s.String() as the first read after construction panicked: %v", f.kind, r)})
+					}
+				}()
+				f.f()
+			}()
+		}
+		text, xerr, pan := exportMD(b.Net)
+		dump := dumpNetwork(b.Net)
 		if pan != nil {
 			cf = append(cf, propFail{"export-panic", fmt.Sprintf("ExportToMarkdown panicked: %v", pan)})
 		}
